@@ -3,6 +3,9 @@ from __future__ import annotations
 
 import gzip
 import io
+import os
+import shutil
+import tempfile
 import struct
 import tarfile
 
@@ -22,7 +25,8 @@ RULE = (
     "long names (GNU L records, PAX path records, ustar prefixes up to 155 bytes that overlap the visor offset field), end-of-"
     "archive blocks and trailing padding; payloads that are themselves tar archives (valid block-aligned headers inside the data "
     "area, possibly repeating an outer name); the data area placed around and above 2^31 (sparse in-memory handle); plain and "
-    "gzip-wrapped. Headers come from TarInfo.tobuf and are patched (magic "
+    "gzip-wrapped; ordinary archives handed over at a non-zero position of a larger file; archives opened by file name after an "
+    "unrelated archive was opened from a handle. Headers come from TarInfo.tobuf and are patched (magic "
     "'visor  ', little-endian data offset at 496, page counts at 504/508, checksum recomputed). Oracle: names, types and sizes "
     "in header order equal the spec, extractfile(m).read() equals the bytes placed at the recorded offset; archives without "
     "visor members must list and extract exactly as tarfile.open does. Non-trivial = >= 2 visor files whose data order "
@@ -33,6 +37,13 @@ ASSUMPTIONS = [
     "visor members with long names use GNU or PAX long-name records (a ustar prefix would overlap the visor offset field)",
 ]
 
+def _decoy() -> bytes:
+    ti = tarfile.TarInfo("decoy-member")
+    ti.size = 5
+    return ti.tobuf(tarfile.USTAR_FORMAT) + b"decoy".ljust(512, b"\0") + bytes(1024)
+
+
+DECOY = _decoy()
 NAME_PARTS = ["etc", "vmware", "file1", "a b", "ünï", "lib64", "x" * 40, "conf.d", "s", "test"]
 
 
@@ -94,7 +105,10 @@ def archive_spec(draw, tier):
             "gap": draw(st.sampled_from([0, 0, 1, 5000, 70000])), "end_blocks": draw(st.sampled_from([2, 2, 3, 8])),
             "trailing": draw(st.sampled_from([0, 0, 512, 10240, 100])), "gzip": draw(st.booleans()), "via": draw(st.sampled_from(["fileobj", "fileobj", "name"])),
             # the data area far behind the headers: recorded offsets around and above 2^31 (uncompressed archives, sparse handle)
-            "far": draw(st.sampled_from([0, 0, 0, 0, 0x7FFFF000, 0x80000000, 0xC0000000, 0xFFF00000]))}
+            "far": draw(st.sampled_from([0, 0, 0, 0, 0x7FFFF000, 0x80000000, 0xC0000000, 0xFFF00000])),
+            # bytes in front of the archive inside the same file; the handle is handed over positioned at the archive's start
+            # (ordinary uncompressed archives: compared with what tarfile.open does with the same handle)
+            "prefix": draw(st.sampled_from([0, 0, 0, 1, 512, 700, 10240]))}
 
 
 def strategy(tier):
@@ -243,8 +257,39 @@ def check(spec) -> Outcome:
     if any(m.get("nested") for m in spec["members"]):
         out.cls("nested-tar-payload")
 
+    # (not for gzip-wrapped archives: the standard library's GzipFile rewinds to offset 0 of the underlying file when a member
+    # is read out of order, whoever opened it)
+    prefix = spec.get("prefix", 0) if not far and not spec["gzip"] and not has_visor else 0
+    if prefix:
+        out.cls("prefixed")
+    by_name = spec.get("via") == "name" and not far and not prefix
+    if by_name:
+        out.cls("via-name")
+
     def run():
-        t = vmtar.open(fileobj=sparse_fh if far else core_track(blob))
+        if by_name:
+            # opened by file name, right after an unrelated archive was opened from a handle with an explicit mode
+            d = tempfile.mkdtemp(prefix="c20-", dir="/dev/shm" if os.path.isdir("/dev/shm") else None)
+            try:
+                p = os.path.join(d, "archive.v00")
+                with open(p, "wb") as f:
+                    f.write(blob)
+                other = vmtar.open(fileobj=io.BytesIO(DECOY), mode="r:")
+                other.getmembers()
+                t = vmtar.open(p)
+                try:
+                    return read_all(t)
+                finally:
+                    t.close()
+                    other.close()
+            finally:
+                shutil.rmtree(d, ignore_errors=True)
+        if prefix:
+            fh = core_track(bytes((i * 31 + 7) & 0xFF for i in range(prefix)) + blob)
+            fh.seek(prefix)
+        else:
+            fh = sparse_fh if far else core_track(blob)
+        t = vmtar.open(fileobj=fh)
         try:
             return read_all(t)
         finally:
@@ -264,7 +309,9 @@ def check(spec) -> Outcome:
             out.fail("mismatch|content", f"member {n!r}: extracted {None if d is None else len(d)} bytes differ from the {None if ed is None else len(ed)} stored")
             break
     if not has_visor:
-        ref = tarfile.open(fileobj=io.BytesIO(blob))
+        ref_fh = io.BytesIO(bytes(prefix) + blob)
+        ref_fh.seek(prefix)
+        ref = tarfile.open(fileobj=ref_fh)
         try:
             exp = read_all(ref)
         finally:
